@@ -167,6 +167,7 @@ func (m *Machine) resetPath() {
 	i.syncMaps = make(map[*value]*omap)
 	i.stubs = nil
 	i.monitor = nil
+	i.panicOrigin = nil
 	for _, g := range m.utGlobal {
 		*i.globals[g] = zero(mustDeref(g.Type()))
 	}
@@ -394,10 +395,10 @@ func init() {
 			}
 			return norm(acc, types.Bool)
 		},
-		"symAnd": func(fr *frame, args []value) value { return andv(args[0], args[1]) },
-		"symOr":  func(fr *frame, args []value) value { return notv(andv(notv(args[0]), notv(args[1]))) },
-		"symNot": func(fr *frame, args []value) value { return notv(args[0]) },
-		"symDebug":      func(fr *frame, args []value) value { return nil },
+		"symAnd":   func(fr *frame, args []value) value { return andv(args[0], args[1]) },
+		"symOr":    func(fr *frame, args []value) value { return notv(andv(notv(args[0]), notv(args[1]))) },
+		"symNot":   func(fr *frame, args []value) value { return notv(args[0]) },
+		"symDebug": func(fr *frame, args []value) value { return nil },
 		"symIsSymbolic": func(fr *frame, args []value) value {
 			return true
 		},
@@ -589,10 +590,10 @@ func sameShape(a, b types.Type) bool {
 	return types.Identical(a, b)
 }
 
-
 // installMonitor installs an engine-side observer requested by a harness.
-//   "reentry": no generated parseRule may be entered for a (rule, offset) pair
-//              that is already being evaluated (C07: unbounded recursion).
+//
+//	"reentry": no generated parseRule may be entered for a (rule, offset) pair
+//	           that is already being evaluated (C07: unbounded recursion).
 func installMonitor(i *interpreter, kind string) {
 	switch kind {
 	case "reentry":
